@@ -441,6 +441,30 @@ def eval_exact(task):
     return {"exc": None, "err": float(np.abs(op - ideal(ref_u, k, cs)).max())}
 
 
+def imag_dust(su):
+    """Region of the SU(2) branch selection of Ldmcsu: a real rotation whose entries carry float dust in the imaginary
+    parts (all |Im| < 1e-15) so that NEITHER diagonal is exactly real (`isclose(x.imag, 0.0)` has no absolute tolerance):
+    the code then takes the eigenbasis path with a degenerate |a| = |b| eigenvector normalisation."""
+    su = np.asarray(su, dtype=complex)
+    if float(np.abs(su.imag).max()) >= 1e-15:
+        return False
+    main_real = su[0, 0].imag == 0 and su[1, 1].imag == 0
+    sec_real = su[0, 1].imag == 0 and su[1, 0].imag == 0
+    return not main_real and not sec_real
+
+
+def su2_handed_to_ldmcsu(cls, u, k, kw):
+    """The SU(2) matrix Mcg passes on to Ldmcsu (k >= 2), else None."""
+    if cls != "mcg" or k < 2:
+        return None
+    if is_su2(u):
+        return u
+    if kw.get("utd"):
+        from qclib.gates.util import u2_to_su2
+        return u2_to_su2(u)[0]
+    return None
+
+
 def record_exact(ctx, task, res):
     cls, uname, u, k, cs, kw = task
     u = np.asarray(u, dtype=complex)
@@ -448,6 +472,10 @@ def record_exact(ctx, task, res):
     if kw.get("utd"):
         tag += ":up_to_diagonal"
     key = f"u2:{cls}:{tag}:{uname}:k={k}:cs={cs}"
+    su = su2_handed_to_ldmcsu(cls, u, k, kw)
+    if su is not None and imag_dust(su):
+        ctx.count("region:imag-dust")
+        key = f"u2:imag-dust:{cls}:{tag}:{uname}:k={k}:cs={cs}"
     if res["exc"] is not None:
         ctx.fail(f"u2:{cls}:{tag}:{uname}:raises", f"{cls}({uname}, k={k}, ctrl_state={cs}) raises {res['exc']}",
                  rep(cls, u, k, cs, uname=uname, **kw))
@@ -568,6 +596,32 @@ def known_probes(ctx):
     except Exception as e:
         ctx.fail(key, f"Mcg(S, 2, up_to_diagonal=True).definition raises {type(e).__name__}: {str(e)[:160]}",
                  rep("mcg", u, 2, None, uname="S", utd=True, probe="known"))
+    # (1b) imaginary float dust on a real rotation (found by the generator-quality audit, seed-dependent in the
+    #      `phase*RY` family before): u2_to_su2(e^{ia} RY(t)) is RY(t) + O(1e-17) i on every entry; neither diagonal is
+    #      then exactly real, Ldmcsu takes its eigenbasis path and builds a wrong operator.
+    dusty = ry(0.5).astype(complex)
+    dusty[0, 0] += 1e-17j
+    dusty[1, 1] -= 1e-17j
+    dusty[0, 1] += 1e-17j
+    dusty[1, 0] += 1e-17j
+    for key, cls, m, kw, ref_m in (
+            ("u2:imag-dust:ldmcsu:RY(0.5)+1e-17i:k=2", "ldmcsu", dusty, {}, dusty),
+            ("u2:imag-dust:mcg:up_to_diagonal:exp(0.4i)RY(0.5):k=2", "mcg", np.exp(0.4j) * ry(0.5), {"utd": True}, ry(0.5))):
+        try:
+            if cls == "ldmcsu":
+                from qclib.gates.ldmcsu import Ldmcsu
+                op = Operator(Ldmcsu(m, 2).definition).data
+            else:
+                op = Operator(build(cls, m, 2, None, **kw)).data
+            err = float(np.abs(op - ideal(ref_m, 2)).max())
+            if err > TOL:
+                ctx.fail(key, f"max |Operator - controlled-U| = {err:.3e}: a real rotation with O(1e-17) imaginary dust on "
+                              f"both diagonals is sent down the eigenbasis path of Ldmcsu (isclose(x.imag, 0.0) is an exact "
+                              f"comparison)", rep(cls, m, 2, None, uname=key.split(":")[-2], probe="known", **kw))
+            else:
+                ctx.ok(key)
+        except Exception as e:
+            ctx.fail(key, f"raises {type(e).__name__}: {str(e)[:160]}", rep(cls, m, 2, None, uname="dust", probe="known", **kw))
     # (2) near-degenerate spectrum: np.linalg.eig returned non-orthogonal eigenvectors, the spectral formula of
     #     `_gate_u` / `custom_sqrtm` then yielded a non-unitary "root" and UnitaryGate raised.
     for uname, m in (("RX(1e-9)", rx(1e-9)), ("RX(0.7)RX(-0.7)", rx(0.7) @ rx(-0.7))):
@@ -585,6 +639,123 @@ def known_probes(ctx):
                               f"(eigenvalue gap {eig_gap(m):.1e})", rep(cls, m, 2, None, uname=uname, probe="known"))
 
 
+def entry_points(ctx, nprng):
+    """Branches of mcu.py no class-level case takes (generator-quality audit):
+    * the static `MCU.mcu(circuit, U, controls, target, error, ctrl_state)`: error == 0 appends the exact Ldmcu, any
+      other error the approximate MCU (both tied to the model and compared with the ideal operator);
+    * the instance wrapper `get_n_base` (must agree with the static `_get_num_base_ctrl_qubits`);
+    * zero controls: `MCU(U, 0, error)` is accepted when the base count is negative (tiny eigen-angle, large error) and
+      its definition is U itself on the target (`control_qubits = []` branch of __init__ and of _define)."""
+    import warnings
+    from qiskit import QuantumCircuit
+    from qiskit.quantum_info import Operator
+    from qclib.gates.mcu import MCU
+    r = ctx.rng
+    ut = tie_u(nprng)
+    # --- static helper, error == 0 -> Ldmcu
+    for k in (1, 3):
+        cs = "".join(r.choice("01") for _ in range(k))
+        key = f"u2:mcu.static:error=0:k={k}:cs={cs}"
+        try:
+            with warnings.catch_warnings():
+                warnings.simplefilter("ignore")
+                qc = QuantumCircuit(k + 1)
+                MCU.mcu(qc, ut, list(qc.qubits[:k]), qc.qubits[k], 0, ctrl_state=cs)
+                lines = skeleton(qc, ut)
+                err = float(np.abs(Operator(qc).data - ideal(ut, k, cs)).max())
+        except Exception as e:
+            ctx.fail(key + ":raises", f"MCU.mcu(..., error=0, ctrl_state={cs}) raises {type(e).__name__}: {str(e)[:160]}",
+                     rep("mcu.static", ut, k, cs, error=0, probe="entry-points"))
+            continue
+        ctx.count("branch:MCU.mcu:static:error=0")
+        ctx.tie({"op": "ldmcu", "k": k, "cs": cs}, lines, label=f"MCU.mcu static error=0 k={k} cs={cs}", driver=DRIVER)
+        if not err <= TOL:
+            ctx.fail(key, f"max |Operator - controlled-U| = {err:.3e}", rep("mcu.static", ut, k, cs, error=0, probe="entry-points"))
+        else:
+            ctx.ok(key)
+    # --- static helper, error > 0 -> MCU
+    for k, b in ((3, 2), (4, 3)):
+        phi = r.uniform(0.3, 3.0)
+        e = error_for_base(phi, b)
+        if e is None or not 0 < e < 1:
+            phi = 0.4
+            e = error_for_base(phi, b)
+        u = np.diag([1, np.exp(1j * phi)])
+        cs = "".join(r.choice("01") for _ in range(k))
+        key = f"u2:mcu.static:approx:k={k}:b={b}:cs={cs}"
+        try:
+            with warnings.catch_warnings():
+                warnings.simplefilter("ignore")
+                qc = QuantumCircuit(k + 1)
+                MCU.mcu(qc, u, list(qc.qubits[:k]), qc.qubits[k], e, ctrl_state=cs)
+                d = Operator(qc).data - ideal(u, k, cs)
+                dist = float(math.sqrt(max(np.linalg.eigvalsh(d.conj().T @ d)[-1], 0.0)))
+                gate = qc.data[0].operation
+                nb = int(gate.n_ctrl_base)
+                wrap = int(gate.get_n_base(u, e))
+                qt = QuantumCircuit(k + 1)
+                with record_multi_target():
+                    MCU.mcu(qt, u, list(qt.qubits[:k]), qt.qubits[k], e, ctrl_state=cs)
+                    lines = skeleton(qt, u)
+        except Exception as ex:
+            ctx.fail(key + ":raises", f"MCU.mcu(..., error={e}, ctrl_state={cs}) raises {type(ex).__name__}: {str(ex)[:160]}",
+                     rep("mcu.static", u, k, cs, error=e, probe="entry-points"))
+            continue
+        ctx.count("branch:MCU.mcu:static:approx")
+        ctx.count("branch:MCU.get_n_base")
+        ctx.tie({"op": "mcu", "k": k, "b": nb, "cs": cs}, lines, label=f"MCU.mcu static k={k} b={nb} cs={cs}", driver=DRIVER)
+        if wrap != nb or nb != b:
+            ctx.fail(f"u2:mcu.get_n_base:k={k}:b={b}", f"get_n_base = {wrap}, n_ctrl_base = {nb}, expected {b}",
+                     rep("mcu.static", u, k, cs, error=e, probe="entry-points"))
+        if not dist <= e + TOL:
+            ctx.fail(key, f"spectral norm {dist:.6e} > error {e}", rep("mcu.static", u, k, cs, error=e, probe="entry-points"))
+        else:
+            ctx.ok(key)
+    # --- zero controls, accepted (negative base count)
+    for phi, e in ((0.01, 0.9), (r.uniform(0.005, 0.05), r.uniform(0.6, 0.95))):
+        u = np.diag([1, np.exp(1j * phi)])
+        key = f"u2:mcu:k=0:phi={phi:.4g}:err={e:.4g}"
+        with warnings.catch_warnings():
+            warnings.simplefilter("ignore")
+            bs = num_base_real(u, e)
+            try:
+                g = MCU(u, 0, e)
+            except ValueError:
+                ctx.count("branch:MCU:k=0:rejected")
+                ctx.tie({"op": "mcu", "k": 0, "b": int(bs[2:]), "cs": None}, ["REJECT"], label="mcu k=0 (rejected)", driver=DRIVER)
+                continue
+            try:
+                lines = skeleton(g.definition, u)
+                op = Operator(g.definition).data
+            except Exception as ex:
+                ctx.fail(key + ":raises", f"MCU(P({phi}), 0, {e}).definition raises {type(ex).__name__}: {str(ex)[:160]}",
+                         rep("mcu", u, 0, None, error=e, probe="entry-points"))
+                continue
+        ctx.count("branch:MCU:k=0:accepted")
+        ctx.tie({"op": "mcu", "k": 0, "b": int(g.n_ctrl_base), "cs": None}, lines, label=f"mcu k=0 b={g.n_ctrl_base}", driver=DRIVER)
+        dist = float(np.abs(op - u).max()) if op.shape == (2, 2) else float("inf")
+        if not dist <= TOL:
+            ctx.fail(key, f"max |Operator(definition) - U| = {dist:.3e} at zero controls", rep("mcu", u, 0, None, error=e, probe="entry-points"))
+        else:
+            ctx.ok(key, nontrivial=False)
+    # zero controls, base count >= 1: must be rejected ("too low")
+    ctx.tie({"op": "mcu", "k": 0, "b": 2, "cs": None},
+            ["REJECT"] if _mcu_rejects(np.diag([1, np.exp(1j)]), 0, error_for_base(1.0, 2)) else ["ACCEPTED"],
+            label="mcu k=0 b=2 (must be rejected)", driver=DRIVER)
+
+
+def _mcu_rejects(u, k, e):
+    import warnings
+    from qclib.gates.mcu import MCU
+    with warnings.catch_warnings():
+        warnings.simplefilter("ignore")
+        try:
+            MCU(u, k, e)
+        except ValueError:
+            return True
+    return False
+
+
 # ------------------------------------------------------------------------------------------------
 # entry points
 # ------------------------------------------------------------------------------------------------
@@ -595,7 +766,9 @@ def run(ctx, kmax=None, kpat=None):
     kmax = kmax or (7 if ctx.quick else 9)
     kpat = kpat or 4
     ctx.notes.append("c04_u2: generated unitaries keep |det - 1| outside (1e-12, 1e-6) (isclose threshold of check_su2) "
-                     "and, outside the dedicated near-degenerate probes, eigenvalue gap 0 or > 1e-3")
+                     "and, outside the dedicated near-degenerate probes, eigenvalue gap 0 or > 1e-3; family members whose "
+                     "SU(2) part is a real rotation with imaginary float dust (phase*RY, depending on the drawn phase) get "
+                     "keys u2:imag-dust:... (threshold region of Ldmcsu's real-diagonal tests, probed on every run)")
 
     # ---- tie
     tie_pairs(ctx, 24 if ctx.quick else 40)
@@ -620,6 +793,7 @@ def run(ctx, kmax=None, kpat=None):
     # negative / zero base counts (tiny angle, large error)
     for phi, e in ((0.01, 0.9), (0.2, 0.9), (0.4, 0.9), (0.3, 0.5)):
         tie_mcu(ctx, np.diag([1, np.exp(1j * phi)]), 3, e, None)
+    entry_points(ctx, nprng)
 
     # ---- oracle
     known_probes(ctx)
@@ -687,6 +861,9 @@ def search(ctx, hints):
 def replay(ctx, r):
     if r.get("probe") == "known":
         known_probes(ctx)
+        return
+    if r.get("probe") == "entry-points":
+        entry_points(ctx, ctx.nprng())
         return
     u = np.array(r["unitary_re"]) + 1j * np.array(r["unitary_im"])
     cls, k, cs = r["call"], int(r["k"]), r.get("ctrl_state")
